@@ -923,8 +923,7 @@ def replay(ctx, components, path):
         ctx.cleanup()
         return 1
     comp = comp[0]
-    exe, err = build_harness(ctx, comp.name, comp.harness, comp.srcs, cpu=comp.cpu, extra=comp.extra,
-                             ldflags=comp.ldflags, sanitize=comp.sanitize, opt=comp.opt)
+    exe, err = build_component(ctx, comp)      # white-box, or black-box where the tree no longer compiles white-box
     if exe is None:
         print("replay: harness does not build: " + err)
         ctx.cleanup()
